@@ -40,6 +40,11 @@ theorem tagNe_false_iff (a b : Tag) : tagNe a b = false ↔ tagEq a b = true := 
 theorem tagNe_true_iff (a b : Tag) : tagNe a b = true ↔ tagEq a b = false := by
   simp [tagNe]
 
+/-- well-formedness (`WF`) lifted to optional CRSs -/
+def TagWF : Tag → Tag → Prop
+  | some a, some b => WF a b
+  | _, _ => True
+
 variable {S R : Type}
 
 /-- the guard as a proposition on the operand list -/
